@@ -1,6 +1,7 @@
 package proc
 
 import (
+	"crypto/sha256"
 	"encoding/hex"
 	"fmt"
 	"math/big"
@@ -544,6 +545,11 @@ func (e *c35env) key(si interface{}) string {
 
 func (e *c35env) keyRec(si interface{}) string {
 	k := e.key(si)
+	if e.r.Thorough() {
+		// millions of states: keep a 96-bit digest of the canonical key instead of the key
+		d := sha256.Sum256([]byte(k))
+		k = hex.EncodeToString(d[:12])
+	}
 	e.r.StateKey(k)
 	return k
 }
@@ -583,12 +589,12 @@ func c35run(t *testing.T, unit string, preexec bool) {
 	for _, a := range e.al.addrs {
 		c35cache.Put(ont.GenBalanceKey(nutils.OngContractAddress, a), cstates.NativeTokenBalanceFromInteger(1000000000).MustToStorageItemBytes())
 	}
-	depth := r.Pick(4, 6)
+	depth := r.Pick(4, 5)
 	r.Rule("breadth-first search over histories of: submit any of the pre-signed transactions (2 EIP-155 senders x nonces with gaps x gas prices 1,2,3 resp. 100,101,102 GWei incl. equal-price variants; native txs) through the real handleTransaction/validators/handleRsp, build a proposal (real getTxPool + IncrementValidator.Verify as vbft.makeProposal does), commit the whole proposal, commit a single foreign-proposed transaction, empty blocks (1, 21, up to the next multiple of 100), reset of the consensus-side validator, raising the chain's gas-price parameter; state = ledger model + complete pool + validator window; every proposal checked for duplicate hash / committed tx / per-sender consecutive nonces from the account nonce, every pool replacement for a strictly higher price")
 	r.Bound(fmt.Sprintf("unit %s: %d transactions in the alphabet, start height %d, depth<=%d", unit, len(e.al.txs), e.h0, depth))
 	r.Assume("validator verdicts are delivered before the next event (one step in flight at a time); balances always suffice; preExecCheck (when mimicked) always passes")
 	cfg := xs.Config{Init: e.init, Events: e.events, Apply: e.apply, Key: e.keyRec, Check: e.check, MaxDepth: depth,
-		MaxStates: r.Pick(400000, 3000000), ShardFirst: true}
+		MaxStates: r.Pick(400000, 2000000), ShardFirst: true}
 	var rc struct {
 		History []string `json:"history"`
 	}
